@@ -143,3 +143,8 @@ package core
 //@
 //@ func (*socket).NewListener
 //@   before call:append#1 assert held(s.Mutex) && !s.closed
+//@
+//@ func newSocket
+//@   ensures result != nil && result.proto == proto && !result.closed && !result.dialAsynch
+//@   ensures result.reconnMinTime == 100000000 && result.reconnMaxTime == 0 && result.maxRxSize == 1048576
+//@   ensures len(result.dialers) == 0 && len(result.listeners) == 0
